@@ -42,6 +42,18 @@ def as_int_typed(x):
     return iconst(int(x.const_value())) if isinstance(x, Rat) and x.is_const() and Fraction(x.const_value()).denominator == 1 else x
 
 
+def sum_of_squares(x):
+    """x >= 0 for all real values of its atoms, syntactically: numerator and denominator are sums of monomials with even
+    exponents and positive coefficients"""
+    if not isinstance(x, Rat) or x.is_zero():
+        return isinstance(x, Rat)
+    for p_ in (x.num, x.den):
+        for m_, c_ in p_.items():
+            if c_ <= 0 or any(e_ % 2 for _a, e_ in mono_items(m_)):
+                return False
+    return True
+
+
 def may_be_integer(x):
     """a NUMBER whose type is an integer type whenever the caller's data are integers: an integer-typed constant, or a
     polynomial with integer coefficients in bare input atoms (`tx`, `cell[3]`; no function value, no radical, no pi, no
@@ -245,6 +257,11 @@ def vkey(v):
             return "pyfunc@%d" % id(v[1])
         return "%s:%s" % (v[0], v[1] if isinstance(v[1], str) else vkey(v[1]))
     if isinstance(v, (list, tuple)):
+        if v and all(isinstance(x, Rat) for x in v):
+            # a sequence holding exactly the entries base[0..n-1] of one opaque array is that array (tuple(cell), list(cell))
+            base = Arr(list(v))._opaque_base()
+            if base is not None:
+                return base
         return "[" + ",".join(vkey(x) for x in v) + "]"
     return repr(v)
 
@@ -349,6 +366,19 @@ class RaiseReached(AnalysisError):
         self.node = node
 
 
+def raised_name(r):
+    """the class name of the exception a RaiseReached ends in: the name written in the raise statement, or -- when the statement
+    raises through a variable (`raise exc(msg)` in a helper that takes the class as an argument) -- the class bound to it"""
+    if getattr(r, "resolved", None):
+        return r.resolved
+    exc = r.node.exc
+    if exc is None:
+        return None
+    if isinstance(exc, ast.Call):
+        exc = exc.func
+    return getattr(exc, "id", getattr(exc, "attr", None))
+
+
 _CONST_CACHE: dict = {}
 HAZARDS = []       # (kind, function name, line, text) recorded by every Evaluator of the run
 
@@ -421,6 +451,8 @@ class SignOracle:
         self.assume = dict(assume or {})
         self.fixed = fixed                # callable(prim) -> sign | None: facts of the rule (positivity of a radius, ...)
         self.used = {}
+        self.prims = {}                   # key -> the expression whose sign was assumed on this path
+        self.asked = []                   # (difference, sign) in the order answered on this run
 
     def __call__(self, d, node=None):
         """sign of the difference d of a comparison"""
@@ -431,15 +463,40 @@ class SignOracle:
         s = angle_range_sign(d)          # principal-value angles against multiples of pi: decided by the range
         if s is not None:
             return s
+        s = self.derive_shift(d)
+        if s is not None:
+            return s
         flip, prim = canon_sign(d)
         k = prim.key()
         if k in self.assume:
             self.used[k] = self.assume[k]
+            self.prims[k] = prim
+            self.asked.append((d, flip * self.assume[k]))
             return flip * self.assume[k]
         s = self.derive(prim)
         if s is not None:
             return flip * s
         raise NeedSign(k, prim, node)
+
+    def derive_shift(self, d):
+        """sign of d from an earlier answer about d0 = +-d + (a constant): `w > pi` was answered, `w - 2 pi <= -pi` is asked"""
+        for d0, s0 in self.asked:
+            for sgn in (1, -1):
+                c = d - sgn * d0
+                if c.is_const():
+                    cs = (c.const_value() > 0) - (c.const_value() < 0)
+                elif c.atoms() <= {"pi"}:
+                    cs = pi_sign(c)
+                    if cs is None:
+                        continue
+                else:
+                    continue
+                t0 = sgn * s0                       # sign of sgn*d0 ;  d = sgn*d0 + c
+                if t0 == 0:
+                    return cs
+                if cs == 0 or cs == t0:
+                    return t0
+        return None
 
     def band(self, q, t, node=None):
         """is the quantity q below the small positive literal t?  One two-way question per (quantity, literal); answers for
@@ -502,6 +559,16 @@ def angle_range_sign(d: Rat):
     when the range decides it (e.g. arctan2(..) - pi <= 0 is answered 'not positive' only if strict: returns None at a tie)"""
     from .poly import ATOM_ARGS
     ang = [a for a in d.atoms() if a in ATOM_ARGS and ATOM_ARGS[a][0] in ("arctan2", "arccos", "arcsin", "arctan")]
+    if len(ang) > 1 and d.atoms() <= set(ang) | {"pi"}:
+        # several principal values: the sum of their ranges (the angles taken as independent -- a sound enclosure)
+        from . import angles as _angles
+        iv = _angles.interval(d)
+        if iv is not None:
+            if iv[0] >= 0 and iv[1] > 0:
+                return 1
+            if iv[1] <= 0 and iv[0] < 0:
+                return -1
+        return None
     if len(ang) != 1 or not (d.atoms() <= {ang[0], "pi"}):
         return None
     a = ang[0]
@@ -556,6 +623,12 @@ class _Break(Exception):
 
 class _Continue(Exception):
     pass
+
+
+EXCEPTION_NAMES = ("Exception", "BaseException", "ValueError", "TypeError", "KeyError", "IndexError", "AttributeError", "RuntimeError",
+                   "NotImplementedError", "ZeroDivisionError", "ArithmeticError", "LookupError", "AssertionError", "OSError", "IOError",
+                   "FileNotFoundError", "NameError", "StopIteration", "OverflowError", "FloatingPointError", "UnboundLocalError",
+                   "ImportError", "UserWarning", "DeprecationWarning", "RuntimeWarning", "Warning", "FutureWarning")
 
 
 def dtype_kind(v):
@@ -770,6 +843,22 @@ class Evaluator:
             return
         if isinstance(st, ast.Assert):
             self.trace.append(("assert", unparse(st.test)))
+            # what the assertion bounds, by value: `|quantity| < small constant` is recorded as (quantity, constant)
+            saved_ = (self.threshold_policy, getattr(self, "threshold_max", None))
+            seen_ = []
+            try:
+                self.threshold_policy = lambda q_, t_, n_: (seen_.append((q_, t_)), True)[1]
+                self.threshold_max = Fraction(1, 100)
+                try:
+                    self.eval(st.test, dict(env))
+                except (AnalysisError, NeedSign, RaiseReached):
+                    pass
+                except Exception:
+                    pass
+            finally:
+                self.threshold_policy, self.threshold_max = saved_[0], (saved_[1] if saved_[1] is not None else self.threshold_max)
+            for q_, t_ in seen_:
+                self.trace.append(("assert-band", q_, t_))
             return
         if isinstance(st, ast.If):
             c = self.decide(st.test, env)
@@ -818,7 +907,12 @@ class Evaluator:
         if isinstance(st, ast.Continue):
             raise _Continue()
         if isinstance(st, ast.Raise):
-            raise RaiseReached(st)
+            err_ = RaiseReached(st)
+            tgt_ = st.exc.func if isinstance(st.exc, ast.Call) else st.exc
+            if isinstance(tgt_, ast.Name) and tgt_.id in env and isinstance(env[tgt_.id], tuple) and len(env[tgt_.id]) == 2 \
+                    and env[tgt_.id][0] in ("builtin", "type", "typeobj") and env[tgt_.id][1] in EXCEPTION_NAMES:
+                err_.resolved = env[tgt_.id][1]           # `raise exc(msg)` with exc a parameter bound to an exception class
+            raise err_
         if isinstance(st, ast.Import):
             for a in st.names:
                 env[a.asname or a.name.split(".")[0]] = ("import", a.name if a.asname else a.name.split(".")[0])
@@ -1238,6 +1332,12 @@ class Evaluator:
                        "reversed", "sorted", "all", "any", "round", "isinstance", "str", "bool", "dict", "map", "filter",
                        "divmod", "next", "iter"):
             return ("builtin", node.id)
+        if node.id in EXCEPTION_NAMES:
+            return ("builtin", node.id)            # an exception class handed around as a value (exc=ValueError)
+        if node.id in ("bytes", "complex", "set", "frozenset", "type", "object", "callable", "hasattr", "getattr", "bytearray", "memoryview"):
+            return ("builtin", node.id)
+        if node.id == "__name__":
+            return self.mod.rel[:-3].replace("/", ".")
         raise AnalysisError("E3: unbound name %s (line %d)" % (node.id, node.lineno))
 
     def module_constant(self, name):
@@ -1326,7 +1426,8 @@ class Evaluator:
                 if isinstance(x, IRat):
                     parts.append(str(int(x.const_value())))
                     continue
-            raise AnalysisError("E3: formatted string whose text is not constant (line %d)" % node.lineno)
+            # the text of a value that is not a constant (a message about an argument): an opaque text
+            return Opaque("text(%s)" % unparse(node)[:60])
         return "".join(parts)
 
     def e_UnaryOp(self, node, env):
@@ -1576,6 +1677,12 @@ class Evaluator:
                     return isinstance(op, ast.GtE)
                 if ws_ == -1 and isinstance(op, (ast.Gt, ast.LtE)):
                     return isinstance(op, ast.LtE)
+            if not d.is_const():
+                # the input domain of the properties (valid cells, positive wavelengths and sizes, ...): xfabsa/domain.py
+                from . import domain as _domain
+                dd_ = _domain.decide(type(op).__name__, d)
+                if dd_ is not None:
+                    return dd_
             if not d.is_const() and self.threshold_policy is not None:
                 # `quantity < small positive literal` (either orientation): a tolerance band
                 sa, sb = scalar(a), scalar(b)
@@ -1794,6 +1901,8 @@ class Evaluator:
                     return ("module", "numpy." + node.attr)
                 return ("npfunc", node.attr)
             return ("npfunc", base[1].split(".", 1)[1] + "." + node.attr)
+        if isinstance(base, tuple) and base and base[0] == "import" and base[1] == "math" and node.attr in ("pi", "tau"):
+            return Rat.atom("pi") * (2 if node.attr == "tau" else 1)
         if isinstance(base, tuple) and base and base[0] == "import":
             dotted = base[1] + "." + node.attr
             if dotted in self.import_values:
@@ -1820,6 +1929,18 @@ class Evaluator:
             A = materialise(base)
             if A is not None:
                 return tuple(Rat.const(i) for i in A.shape)
+        if isinstance(base, tuple) and len(base) == 2 and base[0] == "typeobj" and node.attr in ("kind", "name", "itemsize"):
+            k_ = dtype_kind(base)
+            if node.attr == "kind" and k_ in ("float", "int", "bool", "complex"):
+                return {"float": "f", "int": "i", "bool": "b", "complex": "c"}[k_]
+            if node.attr == "kind" and base[1] == "dtype of the caller's data":
+                # the analysis ranges over real numbers: the float kind (an integer array takes the branch that converts it to
+                # float, with the same values); recorded
+                self.trace.append(("dtype-kind-assumed-float", getattr(node, "lineno", 0)))
+                return "f"
+            if node.attr == "name" and k_ in ("float", "int", "bool"):
+                return {"float": "float64", "int": "int64", "bool": "bool"}[k_]
+            raise AnalysisError("E3: attribute %s of the dtype %s (line %d)" % (node.attr, base[1], node.lineno))
         if node.attr == "dtype" and isinstance(base, Arr):
             fl_ = base.flat()
             if fl_ and all(isinstance(x_, bool) for x_ in fl_):
@@ -1876,9 +1997,12 @@ class Evaluator:
                     return self.np_call("degrees", args, kwargs, node)
                 if name in ("math.radians",):
                     return self.np_call("radians", args, kwargs, node)
-                if name.startswith("math.") and name[5:] in ("cos", "sin", "sqrt", "acos", "asin", "atan2", "atan", "exp"):
-                    alias = {"acos": "arccos", "asin": "arcsin", "atan": "arctan", "atan2": "arctan2"}
+                if name.startswith("math.") and name[5:] in ("cos", "sin", "tan", "sqrt", "acos", "asin", "atan2", "atan", "exp", "fabs", "floor", "ceil",
+                                                              "hypot", "isfinite", "isnan", "isinf", "log", "copysign", "pow", "fmod", "trunc"):
+                    alias = {"acos": "arccos", "asin": "arcsin", "atan": "arctan", "atan2": "arctan2", "pow": "power", "trunc": "fix"}
                     return self.np_call(alias.get(name[5:], name[5:]), args, kwargs, node)
+                if name in ("math.pi",):
+                    return Rat.atom("pi")
                 if name.startswith("six.moves.range"):
                     return self.builtin("range", args, kwargs, node)
                 if name == "re.compile" and len(args) == 1 and isinstance(args[0], str):
@@ -1976,6 +2100,11 @@ class Evaluator:
             pat_ = args[0] if isinstance(args[0], str) else (args[0][1] if len(args[0]) == 2 and args[0][0] == "regex" else None)
             if pat_ is not None:
                 return self.method_call(("regex", pat_), name[3:], [args[1]], {}, node)
+        if name == "operator.index" and len(args) == 1:
+            if isinstance(args[0], IRat) or (isinstance(args[0], Rat) and args[0].is_const() and args[0].const_value().denominator == 1
+                                              and not getattr(args[0], "_is_float", False)):
+                return as_int_typed(args[0])
+            raise AnalysisError("E3: operator.index of a value whose type is not an integer type (line %d)" % node.lineno)
         if name == "operator.neg" and len(args) == 1:
             return self.binop(ast.Mult(), Rat.const(-1), args[0], node)
         if name == "operator.itemgetter" and args:
@@ -2107,13 +2236,104 @@ class Evaluator:
         k = "%s(%s)" % (name, ",".join([vkey(a) for a in args] + ["%s=%s" % (k, vkey(v)) for k, v in sorted(kwargs.items())]))
         return Opaque(k)
 
+    TYPE_KINDS = {"int": {"int", "bool"}, "float": {"float"}, "bool": {"bool"}, "str": {"str"}, "list": {"list"}, "tuple": {"tuple"},
+                  "dict": {"dict"}, "complex": set(), "bytes": set(), "set": set(), "frozenset": set(), "NoneType": {"NoneType"},
+                  "numbers.Number": {"int", "float", "bool"}, "numbers.Real": {"int", "float", "bool"}, "numbers.Complex": {"int", "float", "bool"},
+                  "numbers.Rational": {"int", "bool"}, "numbers.Integral": {"int", "bool"}, "ndarray": {"ndarray"},
+                  "collections.abc.Sequence": {"list", "tuple", "str"}, "collections.abc.Mapping": {"dict"}, "matrix": set()}
+
+    def isinstance_test(self, v, types, node):
+        """isinstance(v, types) by kinds: a symbolic number is an int or a float (either), so `numbers.Real` is decided and
+        `float` is not; numpy scalar classes are never decided for a symbolic number.  NotImplemented: not a case for this test"""
+        if isinstance(types, tuple) and not is_tagged(types):
+            ts = list(types)
+        else:
+            ts = [types]
+        want = set()
+        for t in ts:
+            name = None
+            if isinstance(t, tuple) and len(t) == 2 and isinstance(t[1], str) and t[0] in ("builtin", "type", "typeobj", "import", "npfunc"):
+                name = t[1]
+            if name is None or name not in self.TYPE_KINDS:
+                return NotImplemented
+            want |= self.TYPE_KINDS[name]
+        if isinstance(v, bool):
+            have = {"bool"}
+        elif isinstance(v, str):
+            have = {"str"}
+        elif v is None:
+            have = {"NoneType"}
+        elif isinstance(v, IRat):
+            have = {"int"}
+        elif isinstance(v, Rat):
+            if v.is_const():
+                c = v.const_value()
+                have = {"int"} if c.denominator == 1 and not getattr(v, "_is_float", False) and False else {"int", "float"} if c.denominator == 1 else {"float"}
+            else:
+                have = {"int", "float"}
+        elif isinstance(v, (Arr, Opaque)):
+            have = {"ndarray"}
+        elif is_tagged(v) or isinstance(v, NTuple):
+            return NotImplemented
+        elif isinstance(v, tuple):
+            have = {"tuple"}
+        elif isinstance(v, list):
+            have = {"list"}
+        elif isinstance(v, dict):
+            have = {"dict"}
+        else:
+            return NotImplemented
+        if have <= want:
+            return True
+        if not (have & want):
+            return False
+        return NotImplemented
+
     def builtin(self, name, args, kwargs, node):
         if name == "range":
             ints = [const_int(a) for a in args]
             if any(i is None for i in ints):
                 raise AnalysisError("E3: range over a non-constant (line %d)" % node.lineno)
             return [iconst(i) for i in range(*ints)]
+        if name == "bool" and len(args) == 1 and not kwargs:
+            v = args[0]
+            if isinstance(v, bool):
+                return v
+            if v is None:
+                return False
+            if isinstance(v, (str, list, tuple, dict)) and not is_tagged(v):
+                return len(v) > 0
+            if isinstance(v, Rat) and v.is_const():
+                return v.const_value() != 0
+            if isinstance(v, Arr) and len(v.flat()) == 1 and isinstance(v.flat()[0], bool):
+                return v.flat()[0]
+            raise AnalysisError("E3: truth value of `%s` (line %d)" % (vkey(v)[:40], node.lineno))
+        if name in ("set", "frozenset") and len(args) <= 1 and not kwargs:
+            # kept as a list without repetitions (membership and iteration are what the analysed code does with a set)
+            seq_ = self.as_sequence(args[0], node) if args else []
+            out_, seen_ = [], set()
+            for v_ in seq_:
+                k_ = vkey(v_)
+                if k_ not in seen_:
+                    seen_.add(k_)
+                    out_.append(v_)
+            return out_
+        if name == "callable" and len(args) == 1:
+            return is_tagged(args[0])
+        if name == "hasattr" and len(args) == 2 and isinstance(args[1], str) \
+                and (args[0] is None or isinstance(args[0], (bool, str, list, dict, Rat, Arr, Opaque)) or (isinstance(args[0], tuple) and not is_tagged(args[0]))):
+            v, attr_ = args[0], args[1]
+            seq_ = isinstance(v, (str, list, tuple, dict, Arr, Opaque))
+            table_ = {"__getitem__": seq_, "__len__": seq_, "__iter__": seq_, "keys": isinstance(v, dict), "items": isinstance(v, dict),
+                      "shape": isinstance(v, (Arr, Opaque)), "dtype": isinstance(v, (Arr, Opaque)), "ndim": isinstance(v, (Arr, Opaque)),
+                      "append": isinstance(v, list), "upper": isinstance(v, str), "lower": isinstance(v, str)}
+            if attr_ in table_:
+                return bool(table_[attr_])
+            raise AnalysisError("E3: hasattr(<%s>, %r) (line %d)" % (type(v).__name__, attr_, node.lineno))
         if name == "isinstance" and len(args) == 2:
+            r_ = self.isinstance_test(args[0], args[1], node)
+            if r_ is not NotImplemented:
+                return r_
             is_type = lambda t_: isinstance(t_, tuple) and len(t_) == 2 and t_[0] in ("builtin", "type") and isinstance(t_[1], str)
             types = (args[1],) if is_type(args[1]) else (args[1] if isinstance(args[1], tuple) else (args[1],))
             tn = [t[1] for t in types if is_type(t)]
@@ -2165,8 +2385,19 @@ class Evaluator:
             return args[0]
         if name in ("list", "tuple"):
             v = args[0] if args else []
+            if isinstance(v, Opaque):
+                m_ = materialise(v)
+                if m_ is None:
+                    raise AnalysisError("E3: %s() of an array of unknown shape (line %d)" % (name, node.lineno))
+                v = m_
             if isinstance(v, Arr):
-                v = v.data
+                v = [Arr(x_) if isinstance(x_, list) else x_ for x_ in v.data]
+            elif is_tagged(v):
+                v = self.iterate_tagged(v, node)
+            elif isinstance(v, dict):
+                v = list(v)
+            elif not isinstance(v, (list, tuple, str, range)):
+                raise AnalysisError("E3: %s() of %s (line %d)" % (name, type(v).__name__, node.lineno))
             return list(v) if name == "list" else tuple(v)
         if name in ("min", "max") and len(args) >= 2:
             vals = [scalar(a) for a in args]
@@ -2185,6 +2416,17 @@ class Evaluator:
                     # mathematical range of a cosine
                     self.trace.append(("clip-assumed-inactive", name, x_.key()))
                     return x_
+                # a sum of even powers with positive coefficients is never negative: max(0, cos^2) is the value itself
+                if cv_ == 0 and sum_of_squares(x_):
+                    return x_ if name == "max" else c_
+                if cv_ == 0 and sum_of_squares(-x_):
+                    return c_ if name == "max" else x_
+                # decided on the whole input domain (and for every cosine / sine): max(2 - 2 cos t, 0) is the value itself
+                from . import domain as _domain
+                if _domain.decide("GtE", x_ - c_):
+                    return x_ if name == "max" else c_
+                if _domain.decide("LtE", x_ - c_):
+                    return c_ if name == "max" else x_
                 # any other constant bound is a genuine case distinction: a tolerance band (small positive bound) or a sign case
                 if self.threshold_policy is not None and 0 < cv_ <= self.threshold_max:
                     below = self.threshold_policy(x_, cv_, node)
@@ -2657,6 +2899,30 @@ class Evaluator:
         if fname in ("abs", "absolute", "fabs"):
             if x.is_const():
                 return Rat.const(abs(x.const_value()))
+            if sum_of_squares(x):
+                return x                      # |r.r| of a sum of even powers: the value itself
+            if len(x.num) == 1 and len(x.den) == 1:
+                # a single term: its sign is the sign of the coefficient when every odd-power factor is a principal square root,
+                # pi, an absolute value or positive on the input domain
+                from . import domain as _domain2
+                from .poly import RADICAND as _RAD, ATOM_ARGS as _AA
+                ok_ = True
+                for p_ in (x.num, x.den):
+                    for m_ in p_:
+                        for a_, e_ in mono_items(m_):
+                            if e_ % 2 and not (a_ == "pi" or (a_.startswith("sqrt(") and a_ in _RAD) or _AA.get(a_, ("",))[0] == "abs"
+                                               or _domain2.positive_atom(a_)):
+                                ok_ = False
+                if ok_:
+                    cn_ = next(iter(x.num.values()))
+                    cd_ = next(iter(x.den.values()))
+                    return x if (cn_ > 0) == (cd_ > 0) else -x
+            if sum_of_squares(-x):
+                return -x
+            from . import domain as _domain
+            ds_ = _domain.sign(x)
+            if ds_ is not None:
+                return x if ds_ > 0 else -x    # a length, a wavelength, ...: positive on the whole input domain
             return func_atom("abs", x)
         if fname in ("round", "rint", "around", "floor", "ceil", "fix"):
             import math as _m
@@ -2690,6 +2956,18 @@ class Evaluator:
                     ex = special_angle(fname, q.const_value())
                     if ex is not None:
                         return ex if (fname == "cos" or not neg) else -ex
+            from .poly import ATOM_ARGS
+            if fname in ("cos", "sin") and not x.is_const() \
+                    and (single_atom(x) is None or ATOM_ARGS.get(single_atom(x), ("",))[0] in ("arctan2", "arctan")):
+                # a sum of principal values (arcsin(u) - arctan2(a, b) + pi ...): by the addition theorems, so that the same angle
+                # reached through another inverse function has the same cosine and sine
+                from . import angles as _angles
+                dec_ = _angles.decompose(x)
+                if dec_ is not None and dec_[0] and all(a_ in ATOM_ARGS and ATOM_ARGS[a_][0] in _angles.RANGES for _c, a_ in dec_[0]):
+                    cs_ = _angles.cos_sin(x)
+                    if cs_ is not None:
+                        r = cs_[0] if fname == "cos" else cs_[1]
+                        return r if (fname == "cos" or not neg) else -r
             info = atom_info(x)
             if info is not None and fname in ("cos", "sin") and info[0] in ("arccos", "arcsin"):
                 inner = info[1][0]
@@ -2700,6 +2978,12 @@ class Evaluator:
             return r if (fname == "cos" or not neg) else -r
         if fname == "exp" and x.is_zero():
             return Rat.const(1)
+        if fname in ("arccos", "arcsin") and getattr(self, "unit_clip_identity", True):
+            # arccos(clip(c, -1, 1)) is arccos(c) wherever arccos(c) exists: the guard against round-off is dropped INSIDE the
+            # inverse function only (used anywhere else -- compared, returned -- a clipped value stays what it is)
+            info_ = atom_info(x)
+            if info_ is not None and info_[0] == "clip" and len(info_[1]) == 3 and info_[1][1].equals(-1) and info_[1][2].equals(1):
+                return self.apply_unary(fname, info_[1][0], node)
         if fname == "arccos" and x.is_const() and x.const_value() in (1, 0, -1):
             return {1: Rat.const(0), 0: Rat.atom("pi") / 2, -1: Rat.atom("pi")}[int(x.const_value())]
         return func_atom(fname, x)
@@ -2752,6 +3036,8 @@ class Evaluator:
                         return Rat.const(cx % cy)
                     if canon in ("max", "min"):
                         return Rat.const(max(cx, cy) if canon == "max" else min(cx, cy))
+                if canon in ("max", "min") and (x_.is_const() != y_.is_const()):
+                    return self.builtin(canon, [x_, y_], {}, node)      # a constant bound: the same case distinctions as max()/min()
                 return func_atom(canon, x_, y_)
             A = args[0] if isinstance(args[0], Arr) else (materialise(args[0]) if isinstance(args[0], (list, tuple, Opaque)) else None)
             B = args[1] if isinstance(args[1], Arr) else (materialise(args[1]) if isinstance(args[1], (list, tuple, Opaque)) else None)
@@ -3171,8 +3457,9 @@ class Evaluator:
                         step = len(vals) // ds[0] if ds[0] else 0
                         return [build_(vals[i_ * step:(i_ + 1) * step], ds[1:]) for i_ in range(ds[0])]
                     return Arr(build_(flat_, dims))
-        if name == "arange" and 1 <= len(args) <= 3 and not kwargs and all(const_int(a_) is not None for a_ in args):
-            typed = all(isinstance(a_, IRat) for a_ in args)
+        if name == "arange" and 1 <= len(args) <= 3 and set(kwargs) <= {"dtype"} and all(const_int(a_) is not None for a_ in args) \
+                and dtype_kind(kwargs.get("dtype")) in (None, "float", "int"):
+            typed = all(isinstance(a_, IRat) for a_ in args) and dtype_kind(kwargs.get("dtype")) != "float"
             r_ = Arr([iconst(i) if typed else Rat.const(i) for i in range(*[const_int(a_) for a_ in args])])
             r_.int_dtype = typed
             return r_
